@@ -511,7 +511,15 @@ func (g *didGen) msg() (string, string) {
 			newKey = g.r.Intn(len(g.keys)) // key rotation
 		}
 		docID := did
-		if g.r.Chance(6) {
+		var deadOnes []string
+		for _, dd := range g.dids {
+			if g.dead[dd] && dd != did {
+				deadOnes = append(deadOnes, dd)
+			}
+		}
+		if len(deadOnes) > 0 && g.r.Chance(10) {
+			docID = pick(g.r, deadOnes) // an update of a live DID carrying a document about a DEACTIVATED one: must not bring it back
+		} else if g.r.Chance(6) {
 			docID = g.dids[(d+1)%len(g.dids)]
 		} else if g.r.Chance(5) {
 			docID = nearMissDID(g.r, did)
